@@ -275,7 +275,8 @@ class IntToBa(Unit):
         return [conv().scsi_int_to_ba, conv().scsi_ba_to_int]
 
     def cases(self, tier):
-        return [{"n": n} for n in range(0, 17 if tier == "quick" else 33)]
+        # the 256-bit integer model holds values below 2**255: sizes up to 31 bytes
+        return [{"n": n} for n in range(0, 17 if tier == "quick" else 32)]
 
     def inputs(self, case):
         return {"x": U(lo=0, hi=256 ** case["n"] - 1)}
@@ -314,7 +315,7 @@ class BaToInt(Unit):
         return [conv().scsi_ba_to_int, conv().scsi_int_to_ba]
 
     def cases(self, tier):
-        return [{"n": n} for n in range(0, 17 if tier == "quick" else 33)]
+        return [{"n": n} for n in range(0, 17 if tier == "quick" else 32)]
 
     def inputs(self, case):
         return {"b": Bytes(case["n"])}
